@@ -56,7 +56,7 @@ func minInt(a, b int) int {
 
 func genC11(r *simrt.RNG) *Case {
 	pl := MorassPlan{
-		Chunk:     r.Pick(1, 2, 3, 5, 8, 8, 100),
+		Chunk:     r.Pick(1, 2, 3, 4, 5, 6, 7, 8, 8, 100),
 		Struct:    r.Bool(),
 		AutoClear: r.Bool(),
 		CleanUp:   true,
@@ -198,7 +198,7 @@ func shrinkMorass(c *Case) []*Case {
 
 func genC12(r *simrt.RNG) *Case {
 	pl := MorassPlan{
-		Chunk:      r.Pick(1, 2, 2, 3, 4, 8, 16),
+		Chunk:      r.Pick(1, 2, 2, 3, 4, 5, 6, 7, 8, 16),
 		Concurrent: true,
 		Struct:     r.Bool(),
 		CleanUp:    true,
